@@ -145,6 +145,54 @@ var families = []family{
 		}
 		return sb.String()
 	}},
+	{"class-functions", func(seed uint64) string {
+		n := cdc.Notation().Make()
+		S := col.Set[int](n)
+		a, b := S.Make(), S.Make()
+		for i := 0; i < 20; i++ {
+			a.AddValue(lcg(&seed) % 15)
+			b.AddValue(lcg(&seed) % 15)
+		}
+		C := col.Catalog[string, int](n)
+		c1, c2 := C.Make(), C.Make()
+		for i := 0; i < 10; i++ {
+			c1.SetValue(fmt.Sprint("k", lcg(&seed)%8), i)
+			c2.SetValue(fmt.Sprint("k", lcg(&seed)%8), 100+i)
+		}
+		L := col.List[[]int](n)
+		l1 := L.MakeFromArray([][]int{{1}, {2, lcg(&seed) % 3}})
+		l2 := L.MakeFromArray([][]int{{3}})
+		cat := L.Concatenate(l1, l2)
+		m := C.Merge(c1, c2)
+		e := C.Extract(m, c2.GetKeys())
+		return fmt.Sprint(S.And(a, b).AsArray(), S.Or(a, b).AsArray(), S.Sans(a, b).AsArray(), S.Xor(a, b).AsArray(),
+			m.GetKeys().AsArray(), e.GetSize(), cat.AsArray(), cat.GetIndex([]int{3}))
+	}},
+	{"queue-pipeline", func(seed uint64) string {
+		// every goroutine drives its OWN queues (with their own helper goroutines)
+		n := cdc.Notation().Make()
+		Q := col.Queue[int](n)
+		in := Q.MakeWithCapacity(2)
+		var g sync.WaitGroup
+		out := Q.Join(&g, Q.Split(&g, in, 3))
+		k := 10 + lcg(&seed)%20
+		go func() {
+			for i := 0; i < k; i++ {
+				in.AddValue(i)
+			}
+			in.CloseQueue()
+		}()
+		var got []int
+		for {
+			v, ok := out.RemoveHead()
+			if !ok {
+				break
+			}
+			got = append(got, v)
+		}
+		g.Wait()
+		return fmt.Sprint(got, out.GetSize())
+	}},
 	{"iterate", func(seed uint64) string {
 		n := cdc.Notation().Make()
 		l := col.List[int](n).Make()
